@@ -136,14 +136,17 @@ def draw_frame(ch, label="A"):
     rs = numpy.random.RandomState(seed)
     cats_a = ["x", "y", "z", "t"][: ch.integer("w", 1, 4, "ca" + label)]
     cats_b = ["u", "v", "w"][: ch.integer("w", 1, 3, "cb" + label)]
-    df = pandas.DataFrame(
-        {
-            "a": [cats_a[i] for i in rs.randint(0, len(cats_a), n)],
-            "num": rs.randn(n),
-            "b": [cats_b[i] for i in rs.randint(0, len(cats_b), n)],
-        }
-    )
-    return Data("frame", df, None, None, df, {"n": n, "data_seed": seed, "kind": "frame", "cats": [cats_a, cats_b]})
+    cols = {
+        # object dtype: CategoriesToIntegers detects categorical columns by
+        # dtype object (pandas 3 would otherwise infer the 'str' dtype)
+        "a": pandas.Series([cats_a[i] for i in rs.randint(0, len(cats_a), n)], dtype=object),
+        "num": rs.randn(n),
+        "b": pandas.Series([cats_b[i] for i in rs.randint(0, len(cats_b), n)], dtype=object),
+    }
+    # the set of columns varies from one frame to the next
+    layout = ch.choice("w", ["a,num,b", "a,num", "num,b", "b,num,a"], "layout" + label)
+    df = pandas.DataFrame({k: cols[k] for k in layout.split(",")})
+    return Data("frame", df, None, None, df, {"n": n, "data_seed": seed, "kind": "frame", "cats": [cats_a, cats_b], "columns": layout})
 
 
 # ---------------------------------------------------------------------------
@@ -290,6 +293,8 @@ class SDecisionTreeLogReg(Spec):
             "max_depth": ch.integer("w", 1, 4, "depth"),
             "min_samples_leaf": ch.integer("w", 1, 4, "msl"),
             "algo": ch.choice("w", ["auto", "none", "intercept_sort", "intercept_sort_always"], "algo"),
+            # "If float, then min_samples_split is a fraction" (documented)
+            "min_samples_split": ch.weighted("w", [(2, 3), (4, 1), (0.25, 2), (0.4, 1)], "mss"),
         }
 
     def fragile_rows(self, est, Xb):
@@ -310,7 +315,11 @@ class SDecisionTreeLogReg(Spec):
 
     def build(self, cfg):
         return DecisionTreeLogisticRegression(
-            estimator=PLogReg(max_iter=60), max_depth=cfg["max_depth"], min_samples_leaf=cfg["min_samples_leaf"], fit_improve_algo=cfg["algo"]
+            estimator=PLogReg(max_iter=60),
+            max_depth=cfg["max_depth"],
+            min_samples_leaf=cfg["min_samples_leaf"],
+            min_samples_split=cfg.get("min_samples_split", 2),
+            fit_improve_algo=cfg["algo"],
         )
 
 
